@@ -21,6 +21,9 @@ pub struct Case {
     /// every sequence is repeated to at least this many bases
     #[serde(default)]
     pub min_len: usize,
+    /// a record start moved onto (or next to, or so that the boundary falls inside its header) a block boundary
+    #[serde(default)]
+    pub align: Option<gen::Align>,
 }
 
 fn default_stem() -> String {
@@ -66,6 +69,9 @@ pub fn materialise(c: &Case) -> Vec<Rec> {
                 }
             }
         }
+    }
+    if let Some(a) = &c.align {
+        let _ = gen::align_records(&mut recs, a);
     }
     recs
 }
@@ -173,8 +179,16 @@ impl Leg for Files {
             bounds: [1, 60, 0],
             nuc_only: false,
         };
-        (gen::records_in_container(p), prop_oneof![5 => Just(None), 1 => (any::<u16>(), 0u8..60).prop_map(Some)], prop::sample::select(STEMS.to_vec()))
-            .prop_map(|((recs, cont), stretch, stem)| Case { recs, cont, stretch, stem: stem.to_string(), copies: 0, min_len: 0 })
+        (gen::records_in_container(p), prop_oneof![5 => Just(None), 1 => (any::<u16>(), 0u8..60).prop_map(Some)], prop::sample::select(STEMS.to_vec()), prop_oneof![6 => Just(None), 2 => gen::align_strategy(131072).prop_map(Some), 1 => gen::align_strategy(2 << 20).prop_map(Some)])
+            .prop_map(|((recs, mut cont), stretch, stem, align)| {
+                // an aligned record start refers to the single-line LF text (it may still be compressed)
+                if align.is_some() {
+                    cont.format = Format::Fasta { wrap: None };
+                    cont.crlf = false;
+                    cont.suffix %= 3;
+                }
+                Case { recs, cont, stretch: if align.is_some() { None } else { stretch }, stem: stem.to_string(), copies: 0, min_len: 0, align }
+            })
             .boxed()
     }
     fn check(c: &Case) -> Verdict {
@@ -209,7 +223,7 @@ impl Leg for Huge {
                 if min_len >= 10_000_000 {
                     recs.truncate(2);
                 }
-                Case { recs, cont, stretch: None, stem: stem.to_string(), copies, min_len }
+                Case { recs, cont, stretch: None, stem: stem.to_string(), copies, min_len, align: None }
             })
             .boxed()
     }
